@@ -329,8 +329,7 @@ def run(ctx):
             i = evs.index("data.call_ast_ctx.call_func")
             if "handler_dec.handle_call" in evs[i:]:
                 ok = False
-    has_loop = any(isinstance(n, ast.For) and "handlers" in norm(n.iter) for n in body_walk(f))
-    ctx.check(ok and seen_call and has_loop, "R13.5", uid, "call handlers (task_unique) run before the function (new)",
+    ctx.check(ok and seen_call, "R13.5", uid, "call handlers (task_unique) run before the function (new)",
               msg="FunctionDecoratorManager._call no longer runs every CallHandlerDecorator before calling the function", key="new claim order", node=f, rel="decorator.py")
     # kill_me pre-check sits before any claim in both forms
     uid = "decorators/task.py::TaskUniqueDecorator.handle_call"
